@@ -503,6 +503,9 @@ class SymInt:
         return "<sym>"
 
 
+CONCRETIZE_BUDGET = 24
+
+
 def concretize(x, limit=512):
     """Force a symbolic int to a concrete value by forking (used when the interpreter insists on a
     machine int: indexing, range, hashing).  Every branch expression is a deterministic function of
@@ -510,6 +513,13 @@ def concretize(x, limit=512):
     by the solver, so the number of paths is the number of feasible values."""
     if isinstance(x, int):
         return x
+    if CTX is not None and not (isinstance(x, SymInt) and x.lo == x.hi):
+        # a C-level consumer (int.from_bytes, bytes(), struct...) that forces value after value turns
+        # the run into an enumeration of the input space: give up instead of exploding
+        CTX.concretizations = getattr(CTX, "concretizations", 0) + 1
+        if CTX.concretizations > CONCRETIZE_BUDGET:
+            unsupported(f"more than {CONCRETIZE_BUDGET} symbolic values forced to concrete on one path "
+                        "(the code hands symbolic data to a C-level function)")
     if isinstance(x, SymInt):
         lo, hi = x.lo, x.hi
         if hi - lo > (1 << 48):
